@@ -6,7 +6,9 @@ import SupervisorModel.Model.Strip
   `record_output` (with the `eof` flush), `toggle_capturemode`, `_log`; of `find_prefix_at_end`
   (supervisor/medusa/asynchat_25.py) and of `BoundIO.write` (supervisor/loggers.py).
 
-  `record_output` is modelled in two layers that mirror the two things the method does:
+  `record_output` is modelled twice: `recordDirect` follows the method statement by statement
+  (this is what the driver executes), and, for the proofs, in two layers that mirror the two
+  things the method does (Lemmas/OutDispDirect.lean proves the two models equal):
   * `scanGo` — the scanner: which `_log(data)` / `toggle_capturemode()` calls are made, in
     order, and what is left in `output_buffer` (pure; every test and slice is the regenerated
     definition `Sv.Gen.OutDisp.record_output_*`);
@@ -14,7 +16,7 @@ import SupervisorModel.Model.Strip
     stream (`_log`, `toggle_capturemode`, with the regenerated `log_*`, `toggle_*`,
     `bound_write_*`).
   The real method interleaves them; no information flows from the second into the first
-  except `capturemode`, which both track identically.
+  except `capturemode`, which both track identically (theorem `recordDirect_eq`).
 
   Not modelled: the copy of child output into supervisord's main log at debug level
   (`log_to_mainlog`), log rotation (C19), syslog.
@@ -183,9 +185,85 @@ def readEvent (c : Cfg) (data : Bytes) : S → S := guard fun s =>
   let s2 := recordOutput c (hre_c0_0 s.p.buf data) s1
   if hre_g0 s.p.buf data then close s2 else s2
 
+/-- `self.output_buffer = b` -/
+def setBuf (b : Bytes) : S → S := setP fun p => { p with buf := b }
+
+/-- `record_output(eof)` statement by statement, as the method is written (the effects interleaved
+    with the scan; the recursion `if after: self.record_output(eof)` takes fuel).
+    `Props.C07.recordDirect_eq` proves it equal to the two-layer `recordOutput`. -/
+def recordDirect (c : Cfg) (eof : Bool) : Nat → S → S
+  | 0, s => raise .fuel s
+  | n + 1, s =>
+    if s.err.isSome then s else
+    let m := s.p.mode
+    let buf := s.p.buf
+    if record_output_g0 c.capMax m eof buf c.btok c.etok [] [] 0 then
+      s |> setBuf (record_output_a1 c.capMax m eof buf c.btok c.etok [] [] 0)
+        |> logData c (record_output_a0 c.capMax m eof buf c.btok c.etok [] [] 0)
+    else
+      let tok := if record_output_g1 c.capMax m eof buf c.btok c.etok [] [] 0
+                 then record_output_a2 c.capMax m eof buf c.btok c.etok [] [] 0
+                 else record_output_a3 c.capMax m eof buf c.btok c.etok [] [] 0
+      if record_output_g2 c.capMax m eof buf c.btok c.etok [] [] 0 then s
+      else
+        let data := record_output_a4 c.capMax m eof buf c.btok c.etok [] [] 0
+        let empty := record_output_a5 c.capMax m eof buf c.btok c.etok [] [] 0
+        let s1 := setBuf empty s
+        match splitFirst tok data with
+        | none =>
+          let index := findPrefixAtEnd data tok
+          if record_output_g3 c.capMax m eof empty c.btok c.etok data [] index then
+            s1 |> setBuf (record_output_a9 c.capMax m eof empty c.btok c.etok data [] index)
+               |> logData c (record_output_a10 c.capMax m eof empty c.btok c.etok data [] index)
+          else s1 |> logData c data
+        | some (before, after) =>
+          let m' := toggle_a0 c.capMax m
+          let rest := record_output_a11 c.capMax m' eof empty c.btok c.etok data after 0
+          let s2 := s1 |> logData c before |> toggle c |> setBuf rest
+          if record_output_g4 c.capMax m' eof rest c.btok c.etok data after 0 then recordDirect c eof n s2 else s2
+
+/-- `handle_read_event()` over the statement-by-statement `record_output` (what the driver runs) -/
+def readEventDirect (c : Cfg) (data : Bytes) : S → S := guard fun s =>
+  let s1 := setP (fun p => { p with buf := hre_a1 p.buf data }) s
+  let s2 := recordDirect c (hre_c0_0 s.p.buf data) (s1.p.buf.length + 1) s1
+  if hre_g0 s.p.buf data then close s2 else s2
+
 def init : S := { p := {} }
 
 def feedAll (c : Cfg) (chunks : List Bytes) (s : S) : S := chunks.foldl (fun s x => readEvent c x s) s
+
+
+/-! ### wiring of the output channels (`make_pipes`, `make_dispatchers`, `_prepare_child_fds`) -/
+
+/-- the descriptors `make_pipes` returns; `fresh` are the numbers the kernel hands out, in call order -/
+structure Pipes where
+  childStdin : Nat
+  stdin : Nat
+  stdout : Nat
+  childStdout : Nat
+  stderr : Option Nat
+  childStderr : Option Nat
+deriving DecidableEq, Repr
+
+/-- `options.make_pipes(stderr)` given the six numbers three `os.pipe()` calls would return -/
+def makePipes (useStderr : Bool) (a b c d e f : Nat) : Pipes :=
+  if mkpipes_g0 useStderr then ⟨a, b, c, d, some e, some f⟩ else ⟨a, b, c, d, none, none⟩
+
+/-- `config.make_dispatchers(proc)`: the output dispatchers created, as (descriptor, is the stdout channel) -/
+def outputDispatchers (redirect : Bool) (a b c d e f : Nat) : List (Nat × Bool) :=
+  let p := makePipes (mkdisp_a0 redirect none none none) a b c d e f
+  (if mkdisp_g0 redirect (some p.stdout) p.stderr (some p.stdin) then [(p.stdout, true)] else []) ++
+  (match p.stderr with
+   | some fd => if mkdisp_g1 redirect (some p.stdout) p.stderr (some p.stdin) then [(fd, false)] else []
+   | none => [])
+
+/-- `_prepare_child_fds`: the `dup2(src, dst)` calls made in the child for descriptors 1 and 2 -/
+def childDups (redirect : Bool) (childStdin childStdout childStderr : Int) : List (Int × Int) :=
+  [(childfds_c0_0 redirect childStdin childStdout childStderr, childfds_c0_1 redirect childStdin childStdout childStderr),
+   (childfds_c1_0 redirect childStdin childStdout childStderr, childfds_c1_1 redirect childStdin childStdout childStderr),
+   if childfds_g0 redirect childStdin childStdout childStderr
+   then (childfds_c2_0 redirect childStdin childStdout childStderr, childfds_c2_1 redirect childStdin childStdout childStderr)
+   else (childfds_c3_0 redirect childStdin childStdout childStderr, childfds_c3_1 redirect childStdin childStdout childStderr)]
 
 /-! ### projections of the observable effects -/
 
@@ -238,7 +316,7 @@ def stepLine (c : Cfg) (s : S) (l : String) : S × String :=
   | ["read", h] =>
     match bytesOfHex h with
     | some b =>
-      let s' := readEvent c b { s with outs := [] }
+      let s' := readEventDirect c b { s with outs := [] }
       (s', match s'.err with
            | some .fuel => "err fuel"
            | none => showOuts s'.outs)
@@ -278,6 +356,22 @@ def runFpae (_cfg : List String) (ops : List String) : List String :=
       match bytesOfHex h, bytesOfHex n with
       | some h, some n => toString (findPrefixAtEnd h n)
       | _, _ => "bad-op"
+    | _ => "bad-op"
+
+/-- `case wiring redirect=<0|1>`: op `make a b c d e f` (the numbers three `os.pipe()` calls return) →
+    the output dispatchers and the child's dup2 calls -/
+def runWiring (cfg : List String) (ops : List String) : List String :=
+  match kvBool cfg "redirect" with
+  | none => ops.map fun _ => "bad-config"
+  | some r => ops.map fun l =>
+    match (words l).map String.toNat? with
+    | [none, some a, some b, some c, some d, some e, some f] =>
+      if (words l).head? != some "make" then "bad-op" else
+      let p := makePipes (mkdisp_a0 r none none none) a b c d e f
+      let ds := (outputDispatchers r a b c d e f).map fun x => s!"{x.1}:{if x.2 then "o" else "e"}"
+      let cerr : Int := match p.childStderr with | some x => x | none => -1
+      let dups := (childDups r p.childStdin p.childStdout cerr).map fun x => s!"{x.1}>{x.2}"
+      s!"disp:{",".intercalate ds} | stderr:{match p.stderr with | some x => toString x | none => "none"} | dups:{",".intercalate dups}"
     | _ => "bad-op"
 
 end Sv.OutDisp
